@@ -175,3 +175,91 @@ func TestVerifReplayU2FChallengeMapRace(t *testing.T) {
 	<-done
 	t.Logf("sign response served with status %d while the map was in use under the mutex elsewhere -> see the race detector's report, if any", rec.Code)
 }
+
+// C16: a one-time value presented twice at the same moment is honoured at most once. The same genuine U2F
+// assertion (answering the one stored challenge) is presented by 8 sessions of the user at the same moment;
+// rounds are repeated (fresh challenge each) until two presentations of one round are both honoured.
+func TestVerifReplayU2FSimultaneousPresentation(t *testing.T) {
+	state, tmpdir, err := testCreateRuntimeStateWithBothCAs(t)
+	if err != nil {
+		t.Fatal(err)
+	}
+	defer os.RemoveAll(tmpdir)
+	const user = "username"
+	appID := "https://" + state.HostIdentity
+	b64 := func(b []byte) string { return strings.TrimRight(base64.URLEncoding.EncodeToString(b), "=") }
+	key, _ := ecdsa.GenerateKey(elliptic.P256(), rand.Reader)
+	kh := []byte("legacy-token-key-handle-33333333")
+	profile := &userProfile{
+		U2fAuthData: map[int64]*u2fAuthData{1: {Enabled: true, Name: "tok", Registration: verifU2FRegistration(t, key, kh)}},
+	}
+	if err := state.SaveUserProfile(user, profile); err != nil {
+		t.Fatal(err)
+	}
+	const sessions = 8
+	worst := 0
+	rounds := 0
+	for rounds = 1; rounds <= 200 && worst < 2; rounds++ {
+		chal := make([]byte, 32)
+		rand.Read(chal)
+		challenge := &u2f.Challenge{Challenge: chal, Timestamp: time.Now(), AppID: appID, TrustedFacets: []string{appID}}
+		state.Mutex.Lock()
+		state.localAuthData = map[string]localUserData{user: {U2fAuthChallenge: challenge, ExpiresAt: time.Now().Add(time.Minute)}}
+		state.Mutex.Unlock()
+		clientData, _ := json.Marshal(map[string]string{"typ": "navigator.id.getAssertion", "challenge": b64(challenge.Challenge), "origin": appID})
+		rawAuth := []byte{0x01, 0, 0, 0, byte(rounds)}
+		appParam := sha256.Sum256([]byte(appID))
+		cdHash := sha256.Sum256(clientData)
+		var buf []byte
+		buf = append(buf, appParam[:]...)
+		buf = append(buf, rawAuth...)
+		buf = append(buf, cdHash[:]...)
+		digest := sha256.Sum256(buf)
+		sig, _ := ecdsa.SignASN1(rand.Reader, key, digest[:])
+		signResp, _ := json.Marshal(u2f.SignResponse{KeyHandle: b64(kh), SignatureData: b64(append(append([]byte{}, rawAuth...), sig...)), ClientData: b64(clientData)})
+		var reqs []*http.Request
+		for i := 0; i < sessions; i++ {
+			cookieVal, err := state.genNewSerializedAuthJWT(user, AuthTypePassword, 60)
+			if err != nil {
+				t.Fatal(err)
+			}
+			req := httptest.NewRequest("POST", u2fSignResponsePath, bytes.NewReader(signResp))
+			req.AddCookie(&http.Cookie{Name: authCookieName, Value: cookieVal})
+			reqs = append(reqs, req)
+		}
+		start := make(chan struct{})
+		results := make(chan bool, sessions)
+		for _, req := range reqs {
+			go func(req *http.Request) {
+				rec := httptest.NewRecorder()
+				<-start
+				state.u2fSignResponse(&instrumentedwriter.LoggingWriter{ResponseWriter: rec}, req)
+				honoured := false
+				for _, c := range rec.Result().Cookies() {
+					if c.Name == authCookieName {
+						if info, err := state.getAuthInfoFromAuthJWT(c.Value); err == nil && info.AuthType&AuthTypeU2F != 0 {
+							honoured = true
+						}
+					}
+				}
+				results <- honoured
+			}(req)
+		}
+		close(start)
+		n := 0
+		for i := 0; i < sessions; i++ {
+			if <-results {
+				n++
+			}
+		}
+		if n > worst {
+			worst = n
+		}
+	}
+	t.Logf("%d sessions present one assertion at the same moment, %d rounds -> at most %d of them were honoured in one round", sessions, rounds-1, worst)
+	if worst >= 2 {
+		t.Logf("REPLAY-CONFIRMED: one hardware-token assertion was honoured %d times", worst)
+	} else {
+		t.Logf("REPLAY-NOT-REPRODUCED")
+	}
+}
